@@ -96,7 +96,7 @@ impl Labels {
     }
 }
 
-pub const CP_TYPES: [&str; 6] = ["D", "A", "B", "path::to::C", "G<u8>", "H::<i16>"];
+pub const CP_TYPES: [&str; 9] = ["D", "A", "B", "path::to::C", "G<u8>", "H::<i16>", "other::D", "v2::A", "G<i8>"];
 pub const ERR_TYPES: [&str; 3] = ["E", "my::Err", "Er<u8>"];
 const S_FIELDS: [&str; 6] = ["a", "b", "c", "d", "e", "f"];
 const D_MEMBERS: [&str; 6] = ["x", "y", "z", "w", "p", "q"];
@@ -214,7 +214,7 @@ pub fn gen_counterparts(t: &mut Tape, o: &GenOpts, is_enum: bool, tuple_cp_ok: b
             tys.push("(i32, i64)".into());
         } else {
             // mostly the first few names, sometimes the exotic forms
-            let idx = if t.chance(1, 4) { 3 + t.below(3) } else { t.below(3) };
+            let idx = if t.chance(1, 3) { 3 + t.below(6) } else { t.below(3) };
             let mut c = pool[idx % pool.len()].to_string();
             let mut bump = 0;
             while tys.contains(&c) {
@@ -441,7 +441,19 @@ fn gen_field_instrs(t: &mut Tape, o: &GenOpts, cps: &[Cp], idx: usize, s_named: 
             // parent
             let ded = pick_ded(t, cps, lab);
             ty = "Inner".into();
-            if t.coin() {
+            let dedicable: Vec<&Cp> = cps.iter().filter(|c| c.dedicable).collect();
+            if dedicable.len() >= 2 && t.chance(1, 4) {
+                // a bare #[parent(A)] and a parameterised #[parent(B| ..)] on one member, each dedicated to its counterpart
+                lab.add("parent:bare+params-dedicated");
+                let a = dedicable[0].ty.clone();
+                let b = dedicable[1].ty.clone();
+                let need_types = dedicable[1].has_from();
+                let mut two = vec![Instr::Parent { ded: Some(a), fields: None }, Instr::Parent { ded: Some(b), fields: Some(gen_parent_fields(t, 0, need_types, lab)) }];
+                if t.coin() {
+                    two.reverse();
+                }
+                attrs.extend(two);
+            } else if t.coin() {
                 lab.add("parent:bare");
                 attrs.push(Instr::Parent { ded, fields: None });
             } else {
@@ -684,6 +696,7 @@ fn gen_enum(t: &mut Tape, o: &GenOpts, lab: &mut Labels) -> Item {
         let nf = if shape == Shape::Unit { 0 } else if o.repeat_heavy { 2 + t.below(3) } else { 1 + t.below(3) };
         let mut vattrs: Vec<Instr> = vec![];
         // type hint
+        let mut mixed_hints = false;
         let mut hint: Option<Hint> = None;
         if t.chance(1, 4) {
             let h = match t.below(3) {
@@ -694,9 +707,24 @@ fn gen_enum(t: &mut Tape, o: &GenOpts, lab: &mut Labels) -> Item {
             hint = Some(h);
             lab.add(&format!("type_hint:{:?}", h));
             vattrs.push(Instr::TypeHint { ded: None, hint: h });
-            if t.chance(1, 4) {
+            if t.chance(1, 3) {
                 if let Some(d) = pick_ded(t, &cps, lab) {
-                    vattrs.push(Instr::TypeHint { ded: Some(d), hint: h });
+                    let h2 = if shape == Shape::Named {
+                        match h {
+                            Hint::Struct => Hint::Tuple,
+                            _ => Hint::Struct,
+                        }
+                    } else {
+                        h
+                    };
+                    lab.add("type_hint:dedicated");
+                    mixed_hints = h2 != h;
+                    let dedicated = Instr::TypeHint { ded: Some(d), hint: h2 };
+                    if t.coin() {
+                        vattrs.push(dedicated);
+                    } else {
+                        vattrs.insert(vattrs.len() - 1, dedicated);
+                    }
                 }
             }
         }
@@ -731,7 +759,8 @@ fn gen_enum(t: &mut Tape, o: &GenOpts, lab: &mut Labels) -> Item {
                 vattrs.push(Instr::Ghost { name, ded: pick_ded(t, &cps, lab), action });
             }
             _ => {
-                if shape != Shape::Unit {
+                // a D-only payload member must be named after the counterpart variant's form: skip when forms differ per counterpart
+                if shape != Shape::Unit && !mixed_hints {
                     lab.add("variant:ghosts");
                     let ident = if shape == Shape::Named && hint != Some(Hint::Tuple) || hint == Some(Hint::Struct) { "gz".to_string() } else { format!("{}", nf) };
                     let name = if o.bare_names_only { "ghosts" } else { *t.pick(&["ghosts", "ghosts", "ghosts_owned", "ghosts_ref"]) }.to_string();
